@@ -27,6 +27,10 @@ COORD = {256: 32, 384: 48, 521: 66}
 HASHBITS = {256: 256, 384: 384, 521: 512}
 KEYDIR = Path(os.environ.get("SPSDK_REPO", "/repo")) / "tests" / "_data" / "keys"
 U32 = 0xFFFFFFFF
+# private scalars whose public key has X short / Y short / both short / two leading zero bytes in a coordinate (see Keys)
+SHORT_SCALARS = {256: {"x": 19088788, "y": 19088946, "both": 19115085, "two": 19096582},
+                 384: {"x": 19088829, "y": 19089095, "both": 19208130, "two": 19092229},
+                 521: {"x": 19088745, "y": 19088749, "both": 19088744, "two": 19088912}}
 
 
 # ====================================================================================================== keys
@@ -58,6 +62,25 @@ class Keys:
                         self._write(gen(), pem, pub)
                 ent[nm] = (str(pem), str(pub), self._load(pem))
             self.kinds[kind] = ent
+        # Boundary class "coordinate with leading zero byte(s)" (about 1 ECC key in 128 has one): deterministic keys derived from small private
+        # scalars (found once by search; verified here): srk0 = X short, srk1 = Y short, srk2 = both short, srk3 = two leading zero bytes.
+        for bits, scalars in SHORT_SCALARS.items():
+            kind = f"ecc{bits}"
+            c = COORD[bits]
+            ent = {}
+            for nm, (what, d) in zip(("srk0", "srk1", "srk2", "srk3"), scalars.items()):
+                key = ec.derive_private_key(d, curves[bits])
+                pn = key.public_key().public_numbers()
+                lim = 1 << (8 * (c - 1))
+                ok = {"x": pn.x < lim <= pn.y, "y": pn.y < lim <= pn.x, "both": pn.x < lim and pn.y < lim, "two": min(pn.x, pn.y) < (lim >> 8)}[what]
+                if not ok:
+                    raise Infra(f"the fixed scalar for a short {what} coordinate on P-{bits} does not give one (cryptography changed?)")
+                pem, pub = cache / f"{nm}_{kind}z.pem", cache / f"{nm}_{kind}z.pub"
+                if not (pem.exists() and pub.exists() and self._loadable(pem)):
+                    self._write(key, pem, pub)
+                ent[nm] = (str(pem), str(pub), key)
+            ent["dck"], ent["dck2"] = self.kinds[kind]["dck"], self.kinds[kind]["dck2"]
+            self.kinds[kind + "z"] = ent
         # an RSA key with public exponent 3 (exponent shorter than 3 bytes)
         pem, pub = cache / "srk0_rsa2048e3.pem", cache / "srk0_rsa2048e3.pub"
         if not (pem.exists() and pub.exists() and self._loadable(pem)):
@@ -378,6 +401,20 @@ def run(ck):
                 cases.append((rng.choice(classic), None, v, n, used, False, rng.random() < 0.5))
     for f in classic:
         cases.append((f, None, rng.choice(list(VERSIONS)), rng.randint(1, 4), 0, rng.random() < 0.3, rng.random() < 0.5))
+    # RoT keys with a leading zero byte in a coordinate, in every run: every ECC version x a family of the matching image-tool RoT type where there
+    # is one (cert block v2.1 / AHAB) x (all four special keys, every used index | one special key at every position among ordinary ones | alone)
+    cb21 = [f for f in classic if info[f].get("rot_type") == "cert_block_21"] or classic
+    for v in ("2.0", "2.1", "2.2"):
+        f = cb21[{"2.0": 0, "2.1": 1, "2.2": 2}[v] % len(cb21)]
+        for used in range(4):
+            cases.append((f, None, v, 4, used, False, False, (0, 1, 2, 3)))
+        for pos in range(4):
+            cases.append((f, None, v, 4, (pos + 1) % 4, False, False, (pos,)))
+            cases.append((f, None, v, pos + 1, pos, False, True, (pos,)))
+        for z in range(4):
+            cases.append((f, None, v, 1, 0, False, False, ("solo", z)))
+        for (fe, reve) in ele_v1_revs[:2]:
+            cases.append((fe, reve, v, 4, 2, False, False, (0, 1, 2, 3)))
     for (f, rev) in ele_v1_revs:
         for v in VERSIONS:
             cases.append((f, rev, v, 4, rng.randrange(4), False, rng.random() < 0.5))
@@ -420,10 +457,17 @@ def run(ck):
     dar_neg_budget = ck.budget(200, 6000)
     seen_cfg = set()
     prev_by_cls = {}
-    for ci, (fam, rev, ver, n, used, by_socc, explicit) in enumerate(cases):
+    for ci, case in enumerate(cases):
+        fam, rev, ver, n, used, by_socc, explicit = case[:7]
+        zpos = case[7] if len(case) > 7 else ()
         kind = keys.kind_of(ver)
         kk = keys.kinds[kind]
         fi = info[fam]
+        # RoT keys of this case: ordinary ones, or the short-coordinate ones at the positions the case asks for
+        if zpos and zpos[0] == "solo":
+            srk = [keys.kinds[kind + "z"][f"srk{zpos[1]}"]]
+        else:
+            srk = [(keys.kinds[kind + "z"] if i in zpos else kk)[f"srk{i}"] for i in range(4)]
         # legacy configuration (socc instead of family): SPSDK works with the ambassador family of the SoC class
         if by_socc:
             a = amb_of.get(fi["socc"])
@@ -432,7 +476,7 @@ def run(ck):
         uuid, socu, vu, beacon = rnd_uuid(), rnd32(), rnd32(), rnd32()
         flag_ca = fi["ele"] and rng.random() < 0.3
         cfg = {"uuid": uuid.hex(), "cc_socu": socu if rng.random() < 0.5 else hex(socu), "cc_vu": vu, "cc_beacon": beacon,
-               "rot_meta": [kk[f"srk{i}"][1] for i in range(n)], "rot_id": used, "rotk": kk[f"srk{used}"][0], "dck": kk["dck"][1]}
+               "rot_meta": [srk[i][1] for i in range(n)], "rot_id": used, "rotk": srk[used][0], "dck": kk["dck"][1]}
         if by_socc:
             cfg["socc"] = fi["socc"]
         else:
@@ -442,12 +486,13 @@ def run(ck):
         if flag_ca:
             cfg["flag_ca"] = True
         inp = {"family": fam, "revision": rev, "version": ver, "keys": n, "used": used, "by_socc": by_socc, "explicit_version": explicit,
+               "short_coordinate_keys_at": list(zpos),
                "uuid": uuid.hex(), "cc_socu": socu, "cc_vu": vu, "cc_beacon": beacon, "flag_ca": bool(flag_ca)}
-        key = (fam, rev, ver, n, used, by_socc, uuid, socu, vu, beacon, flag_ca)
+        key = (fam, rev, ver, n, used, by_socc, uuid, socu, vu, beacon, flag_ca, zpos)
         exp_cls = "ele" if fi["ele"] else VERSIONS[ver][0]
         if rev and fi["ele"]:
             exp_cls = "ele"
-        s_dc.note(inp, nontrivial=key not in seen_cfg, cls=f"{exp_cls}/{ver}/n{n}")
+        s_dc.note(inp, nontrivial=key not in seen_cfg, cls=f"{exp_cls}/{ver}/n{n}" + ("/short-coordinate" if zpos else ""))
         seen_cfg.add(key)
 
         def build(c=cfg, e=explicit, v=ver):
@@ -464,8 +509,8 @@ def run(ck):
             continue
         fam_kind, bits = VERSIONS[ver]
         pss = fi["pss"]
-        rot_priv = kk[f"srk{used}"][2]
-        raws3 = [pub_raw(kk[f"srk{i}"][2], 3 if fam_kind == "rsa" else None) for i in range(n)]
+        rot_priv = srk[used][2]
+        raws3 = [pub_raw(srk[i][2], 3 if fam_kind == "rsa" else None) for i in range(n)]
 
         # -- (1) SPSDK parse gives back every field
         pr = pyres(DC.parse, data)
@@ -509,7 +554,7 @@ def run(ck):
             chk["rot_pub"] = (dec["rot_pub"], exp_rot)
         else:
             chk["flags"] = ((dec["flags_marker"], dec["used"], dec["cnt"], dec["flags_rest"]), (1, used, n, 0))
-            chk["srk table present"] = (all(pub_raw(kk[f"srk{i}"][2])[:32] in dec["srk"] for i in range(4)), True)
+            chk["srk table present"] = (all(pub_raw(srk[i][2])[:32] in dec["srk"] for i in range(4)), True)
         badf = {k: v for k, v in chk.items() if v[0] != v[1]}
         s_dc.expect(not badf, inp, "exported credential does not carry the configured value in the documented field", badf)
 
@@ -528,7 +573,7 @@ def run(ck):
                 s_dc.expect(not verify_sig(rot_priv, sig, bytes(mut), pss), inp, f"signature still verifies after changing byte {b} of the signed range", b)
             for oth in range(n):
                 if oth != used:
-                    s_dc.expect(not verify_sig(kk[f"srk{oth}"][2], sig, tbs, pss), inp, "signature verifies under a RoT key other than the named one", oth)
+                    s_dc.expect(not verify_sig(srk[oth][2], sig, tbs, pss), inp, "signature verifies under a RoT key other than the named one", oth)
         tr = pyres(dc._get_data_to_sign)
         s_dc.expect(tr == ("ok", tbs), inp, "_get_data_to_sign() is not the exported credential without its trailing signature", tr[0])
 
@@ -536,7 +581,7 @@ def run(ck):
         hr = pyres(dc.calculate_hash)
         ref = ref_rot_hash(cls, ver, raws3, dc.rot_meta.export())
         s_dc.expect(hr == ("ok", ref), inp, "calculate_hash() differs from the documented RoT key hash recomputed with hashlib", hr, ref)
-        pubs = [kk[f"srk{i}"][1] for i in range(n)]
+        pubs = [srk[i][1] for i in range(n)]
         if cls == "rsa":
             tool = pyres(lambda: RKHTv1.from_keys(pubs).rkth())
             s_dc.expect(tool == ("ok", ref), inp, "RoT hash differs from RKHTv1 (cert block v1 image tools)", tool, ref)
